@@ -19,42 +19,59 @@ harness on every op (runtime behaviour of the Go scheduler and of net.Conn).
 namespace GV.Props.C15
 open GV.Model.Shutdown
 
-theorem not_blocked (evs : List PeerEv) : ∀ s : St, s.handlerBlocked = false →
-    (evs.foldl (step fixed) s).handlerBlocked = false := by
-  induction evs with
-  | nil => intro s h; exact h
-  | cons e t ih =>
-    intro s h
-    apply ih
-    cases e with
-    | reply k =>
-      simp only [step, fixed]
-      split
-      · exact h
-      · split
-        · exact h
-        · split <;> simp [h]
-    | junk => simp only [step]; split <;> simp [h]
-    | close => simp [step, h]
+/-- invariant of the repaired code: no handler is ever blocked, and the muxer's read loop parks
+    only after the call has returned or the protocol has failed -/
+def Good (s : St) : Prop :=
+  s.handlerBlocked = false ∧ (s.parked = true → (∃ b, s.caller = .returned b) ∨ s.protoDead = true)
 
-theorem closed_stays (evs : List PeerEv) (cfg : Cfg) : ∀ s : St, s.closed = true →
-    (evs.foldl (step cfg) s).closed = true := by
+theorem good_step (s : St) (e : PeerEv) (h : Good s) : Good (step fixed s e) := by
+  obtain ⟨hb, hp⟩ := h
+  cases e with
+  | reply k =>
+    simp only [step, fixed]
+    split
+    · exact ⟨hb, hp⟩
+    · rename_i hc
+      simp only [hb, Bool.or_false, Bool.or_eq_true, not_or, Bool.not_eq_true] at hc
+      cases hcal : s.caller with
+      | returned b => simp only; exact ⟨hb, hp⟩
+      | waiting =>
+        simp only
+        split
+        · exact ⟨hb, fun _ => Or.inl ⟨true, rfl⟩⟩
+        · exact ⟨hb, fun _ => Or.inr rfl⟩
+  | junk =>
+    simp only [step]
+    split
+    · exact ⟨hb, hp⟩
+    · exact ⟨hb, fun _ => Or.inr rfl⟩
+  | flood =>
+    simp only [step]
+    split
+    · exact ⟨hb, hp⟩
+    · cases hcal : s.caller with
+      | returned b => simp only; exact ⟨hb, fun _ => Or.inl ⟨b, rfl⟩⟩
+      | waiting =>
+        simp only
+        split
+        · rename_i hd; exact ⟨hb, fun _ => Or.inr hd⟩
+        · exact ⟨hb, hp⟩
+  | close => exact ⟨hb, hp⟩
+
+theorem good_fold (evs : List PeerEv) : ∀ s : St, Good s → Good (evs.foldl (step fixed) s) := by
   induction evs with
   | nil => intro s h; exact h
-  | cons e t ih =>
-    intro s h
-    apply ih
-    cases e with
-    | reply k => simp [step, h]
-    | junk => simp [step, h]
-    | close => simp [step]
+  | cons e t ih => intro s h; exact ih _ (good_step s e h)
+
+theorem good_init (kind : Nat) : Good (St.init kind) := by
+  simp [Good, St.init]
 
 /-- Whatever the peer does, once the connection has ended the call has returned. -/
 theorem call_always_returns (kind : Nat) (evs : List PeerEv) : (outcome fixed kind evs).isSome = true := by
   unfold outcome
   rw [List.foldl_append]
   simp only [List.foldl_cons, List.foldl_nil]
-  have hb := not_blocked evs (St.init kind) rfl
+  have hb := (good_fold evs (St.init kind) (good_init kind)).1
   generalize (evs.foldl (step fixed) (St.init kind)) = s at hb
   simp only [step, finish]
   cases s.caller with
@@ -66,11 +83,25 @@ theorem nothing_left_behind (kind : Nat) (evs : List PeerEv) : leaks fixed kind 
   have h1 := call_always_returns kind evs
   unfold outcome at h1
   unfold leaks
-  have hb := not_blocked (evs ++ [PeerEv.close]) (St.init kind) rfl
+  have hb := (good_fold (evs ++ [PeerEv.close]) (St.init kind) (good_init kind)).1
   simp only [hb, Bool.false_or]
   cases hf : finish fixed ((evs ++ [PeerEv.close]).foldl (step fixed) (St.init kind)) with
   | none => rw [hf] at h1; simp at h1
   | some b => simp
+
+/-- The protocol client's own `Stop()` returns whatever the peer did before — also after a
+    flood of surplus messages has parked the muxer's read loop. -/
+theorem stop_always_returns (kind : Nat) (evs : List PeerEv) : stopReturns fixed kind evs = true := by
+  have hb := (good_fold (evs ++ [PeerEv.close]) (St.init kind) (good_init kind)).1
+  unfold stopReturns
+  simp only [hb, Bool.not_false, Bool.and_true]
+  simp [fixed]
+
+/-- the muxer before its repair: the call is answered, surplus messages park the read loop,
+    `Stop()` blocks in UnregisterProtocol — and the disconnect is never noticed -/
+theorem parked_readloop_witness :
+    stopReturns { selectsDone := true, perKindStates := true, unregisterBlocks := true } 0 [.reply 0, .flood] = false ∧
+    stopReturns fixed 0 [.reply 0, .flood] = true := by decide
 
 theorem ok_needs_own_reply_aux (kind : Nat) (evs : List PeerEv) : ∀ s : St,
     s.pendingKind = kind → s.caller = .waiting →
@@ -91,6 +122,7 @@ theorem ok_needs_own_reply_aux (kind : Nat) (evs : List PeerEv) : ∀ s : St,
           · exact ⟨hk, hw⟩
           · simp [hne, hk, hw]
         | junk => simp only [step]; split <;> simp [hk, hw]
+        | flood => simp only [step, hw]; split <;> (try split) <;> simp [hk, hw]
         | close => simp [step, hk, hw]
       have := ih (step fixed s e) hs.1 hs.2 h
       simp [this]
@@ -125,6 +157,7 @@ theorem own_reply_first_succeeds (kind : Nat) (rest : List PeerEv) :
       cases e with
       | reply k => simp only [step]; split <;> simp [h]
       | junk => simp only [step]; split <;> simp [h]
+      | flood => simp only [step, h]; split <;> simp [h]
       | close => simp [step, h]
   have hfin := this (rest ++ [PeerEv.close]) _ (rfl : ({ pendingKind := kind, caller := Caller.returned true, handlerBlocked := false, protoDead := false, closed := false } : St).caller = .returned true)
   unfold finish
